@@ -306,3 +306,442 @@ Section Run.
     destruct (In_nth _ _ 0 R) as [i [Hi E]]. exists i. split. lia. rewrite CE by lia. exact E.
   Qed.
 End Run.
+
+Lemma run_ensure_rep_le a s X doms : generate_full a s = Ok (X, doms) -> ensure_rep a = true ->
+  forall j, (j < n_features a)%nat -> (length (nth j doms []) <= n_samples a)%nat ->
+  forall v, In v (nth j doms []) -> exists i, (i < n_samples a)%nat /\ cell X i j = v.
+Proof.
+  intros G He j Hj Hl. apply (run_ensure_rep Nat.leb leb_le' a s X doms G He j Hj).
+  now apply Nat.leb_le.
+Qed.
+
+(* ---------------------------------------------------------------- positions *)
+
+Definition place_all (d : attrs) (fl : list (nat * attrs)) (acc : list attrs) : list attrs :=
+  fold_left (fun acc (p : nat * attrs) => place d acc (fst p) (snd p)) fl acc.
+
+Lemma place_all_app d fl1 fl2 acc :
+  place_all d (fl1 ++ fl2) acc = place_all d fl2 (place_all d fl1 acc).
+Proof. unfold place_all. apply fold_left_app. Qed.
+
+Lemma place_entry_flat d e acc : place_entry d acc e = place_all d (flat_entry e) acc.
+Proof.
+  destruct e as [i at_|ixs at_]; cbn. reflexivity.
+  revert acc. induction ixs as [|i r IH]; cbn; intros acc. reflexivity. apply IH.
+Qed.
+
+Lemma layout_fold_flat d st : forall acc,
+  fold_left (place_entry d) st acc = place_all d (flat_map flat_entry st) acc.
+Proof.
+  induction st as [|e r IH]; intros acc. reflexivity.
+  change (flat_map flat_entry (e :: r)) with (flat_entry e ++ flat_map flat_entry r).
+  rewrite place_all_app. cbn [fold_left]. rewrite IH, place_entry_flat. reflexivity.
+Qed.
+
+Lemma map_const_repeat {A B} (f : A -> B) d l : (forall x, In x l -> f x = d) -> map f l = repeat d (length l).
+Proof.
+  induction l as [|x r IH]; cbn; intros H. reflexivity.
+  rewrite H by auto. f_equal. apply IH. auto.
+Qed.
+
+Lemma declared_in_below d : forall r lo j,
+  increasing_from lo (map fst r) = true -> (j < lo)%nat -> declared_in d r j = d.
+Proof.
+  induction r as [|[i at_] r IH]; cbn; intros lo j H Hj. reflexivity.
+  apply andb_true_iff in H as [H1 H2]. apply Nat.leb_le in H1.
+  destruct (Nat.eqb_spec i j). lia. apply (IH (S i)); auto. lia.
+Qed.
+
+Lemma increasing_lower : forall (r : list (nat * attrs)) lo,
+  increasing_from lo (map fst r) = true -> forall p, In p r -> (lo <= fst p)%nat.
+Proof.
+  induction r as [|[k b] r IH]; cbn; intros lo H p Hp. contradiction.
+  apply andb_true_iff in H as [H1 H2]. apply Nat.leb_le in H1.
+  destruct Hp as [<-|Hp]. cbn. lia. specialize (IH _ H2 _ Hp). lia.
+Qed.
+
+Lemma declared_in_at d : forall r lo i at_,
+  increasing_from lo (map fst r) = true -> In (i, at_) r -> declared_in d r i = at_.
+Proof.
+  induction r as [|[i' at'] r IH]; cbn; intros lo i at_ H Hin. contradiction.
+  apply andb_true_iff in H as [H1 H2].
+  destruct Hin as [E|Hin].
+  - inversion E; subst. now rewrite Nat.eqb_refl.
+  - destruct (Nat.eqb_spec i' i).
+    + subst i'. pose proof (increasing_lower _ _ H2 _ Hin) as G. cbn in G. lia.
+    + apply (IH (S i')); auto.
+Qed.
+
+Lemma place_all_sorted d n : forall fl acc,
+  increasing_from (length acc) (map fst fl) = true ->
+  forallb (fun i => (i <? n)%nat) (map fst fl) = true ->
+  (length acc <= n)%nat ->
+  exists k, place_all d fl acc = acc ++ map (declared_in d fl) (seq (length acc) k) /\
+            (length acc + k <= n)%nat /\
+            (forall j, (length acc + k <= j)%nat -> declared_in d fl j = d).
+Proof.
+  induction fl as [|[i at_] r IH]; intros acc Hinc Hlt Hacc.
+  - exists O. cbn. rewrite app_nil_r. repeat split; auto. lia.
+  - cbn in Hinc, Hlt. apply andb_true_iff in Hinc as [H1 H2]. apply andb_true_iff in Hlt as [H3 H4].
+    apply Nat.leb_le in H1. apply Nat.ltb_lt in H3.
+    set (acc1 := place d acc i at_).
+    assert (L1 : length acc1 = S i).
+    { unfold acc1, place. rewrite !app_length, repeat_length. cbn. lia. }
+    destruct (IH acc1) as (k1 & E & B & Hd).
+    { now rewrite L1. } { exact H4. } { lia. }
+    exists ((i - length acc) + 1 + k1)%nat. split; [|split].
+    + change (place_all d ((i, at_) :: r) acc) with (place_all d r acc1). rewrite E.
+      rewrite L1.
+      assert (ES : seq (length acc) (i - length acc + 1 + k1)
+                   = seq (length acc) (i - length acc) ++ [i] ++ seq (S i) k1).
+      { rewrite !seq_app. rewrite <- app_assoc. cbn [seq].
+        replace (length acc + (i - length acc))%nat with i by lia.
+        replace (length acc + (i - length acc + 1))%nat with (S i) by lia. reflexivity. }
+      rewrite ES, !map_app. unfold acc1, place. rewrite <- !app_assoc. f_equal.
+      f_equal; [|f_equal].
+      * rewrite <- (seq_length (i - length acc) (length acc)) at 1. symmetry.
+        apply map_const_repeat. intros j Hj. apply in_seq in Hj. cbn.
+        destruct (Nat.eqb_spec i j). lia. apply (declared_in_below d r (S i)); auto. lia.
+      * cbn. now rewrite Nat.eqb_refl.
+      * apply map_ext_in. intros j Hj. apply in_seq in Hj. cbn.
+        destruct (Nat.eqb_spec i j). lia. reflexivity.
+    + rewrite L1 in B. lia.
+    + intros j Hj. cbn. destruct (Nat.eqb_spec i j). lia. apply Hd. rewrite L1. lia.
+Qed.
+
+Lemma layout_sorted a : sorted_structure a = true ->
+  layout a = Ok (map (declared a) (seq 0 (n_features a))).
+Proof.
+  unfold sorted_structure. intros H. apply andb_true_iff in H as [H1 H2].
+  assert (EA : match structure a with None => [] | Some st => fold_left (place_entry (dflt a)) st [] end
+               = place_all (dflt a) (flat (structure a)) []).
+  { destruct (structure a) as [st|]; cbn. apply layout_fold_flat. reflexivity. }
+  unfold layout. rewrite EA.
+  destruct (place_all_sorted (dflt a) (n_features a) (flat (structure a)) [] H1 H2 ltac:(cbn; lia))
+    as (k & E & B & Hd).
+  cbn in E, B, Hd. rewrite E.
+  assert (EQ : map (declared_in (dflt a) (flat (structure a))) (seq 0 k) ++
+               repeat (dflt a) (n_features a - length (map (declared_in (dflt a) (flat (structure a))) (seq 0 k)))
+               = map (declared a) (seq 0 (n_features a))).
+  { rewrite map_length, seq_length.
+    replace (n_features a) with (k + (n_features a - k))%nat at 2 by lia.
+    rewrite seq_app, map_app. f_equal. cbn.
+    rewrite <- (seq_length (n_features a - k) k) at 1. symmetry.
+    apply map_const_repeat. intros j Hj. apply in_seq in Hj. apply Hd. lia. }
+  rewrite EQ. rewrite map_length, seq_length, Nat.eqb_refl. reflexivity.
+Qed.
+
+Lemma layout_positions a i at_ : sorted_structure a = true -> In (i, at_) (flat (structure a)) ->
+  exists specs, layout a = Ok specs /\ (i < n_features a)%nat /\ nth i specs (dflt a) = at_.
+Proof.
+  intros H Hin. exists (map (declared a) (seq 0 (n_features a))). split. now apply layout_sorted.
+  unfold sorted_structure in H. apply andb_true_iff in H as [H1 H2].
+  assert (Hi : (i < n_features a)%nat).
+  { rewrite forallb_forall in H2. apply Nat.ltb_lt. apply H2. apply in_map_iff. exists (i, at_). auto. }
+  split; [exact Hi|]. rewrite nth_map_seq by exact Hi. unfold declared.
+  eapply declared_in_at; eauto.
+Qed.
+
+Lemma layout_default a j : sorted_structure a = true -> (j < n_features a)%nat ->
+  ~ In j (map fst (flat (structure a))) ->
+  exists specs, layout a = Ok specs /\ nth j specs (dflt a) = dflt a.
+Proof.
+  intros H Hj Hn. exists (map (declared a) (seq 0 (n_features a))). split. now apply layout_sorted.
+  rewrite nth_map_seq by exact Hj. unfold declared.
+  induction (flat (structure a)) as [|[i b] r IH]; cbn in *. reflexivity.
+  destruct (Nat.eqb_spec i j). exfalso; auto. apply IH. auto.
+Qed.
+
+(* unsorted structures: the code places a feature at the running counter, not at its index *)
+Definition unsorted_witness : args :=
+  mkArgs 4 3 5 (Some [SOne 2 (ACard 2); SOne 0 (AVals [5; 6])]) false false 0 1000 3.
+
+Lemma positions_unsorted_refuted :
+  exists a i at_ specs,
+    In (i, at_) (flat (structure a)) /\ NoDup (map fst (flat (structure a))) /\
+    Forall (fun k => (k < n_features a)%nat) (map fst (flat (structure a))) /\
+    layout a = Ok specs /\ nth i specs (dflt a) <> at_.
+Proof.
+  exists unsorted_witness, O, (AVals [5; 6]), [ACard 5; ACard 5; ACard 2; AVals [5; 6]].
+  split. cbn; auto. split. { repeat constructor; cbn; intuition discriminate. }
+  split. { cbn. repeat constructor. }
+  split. reflexivity. cbn. discriminate.
+Qed.
+
+(* ---------------------------------------------------------------- the validator *)
+
+Definition listed_prop (a : args) (vs col : list Z) : Prop :=
+  (forall v, In v col -> In v vs) /\
+  (ensure_rep a = true -> (length vs <= n_samples a)%nat -> forall v, In v vs -> In v col).
+
+Definition col_prop (a : args) (sp : attrs) (col : list Z) : Prop :=
+  match sp with
+  | ACard c =>
+      if random_values a then
+        (forall v, In v col -> low a <= v <= high a) /\ (length (distinct col) <= c)%nat /\
+        (ensure_rep a = true -> (c <= n_samples a)%nat -> length (distinct col) = c)
+      else listed_prop a (arange (low a) c) col
+  | AVals vs => listed_prop a vs col
+  | AValsP vs _ => listed_prop a vs col
+  end.
+
+Lemma listed_sound a vs col :
+  forallb (fun v => memZ v vs) col &&
+  (if ensure_rep a && (length vs <=? n_samples a)%nat then forallb (fun v => memZ v col) vs else true) = true ->
+  listed_prop a vs col.
+Proof.
+  intros H. apply andb_true_iff in H as [H1 H2]. rewrite forallb_forall in H1. split.
+  - intros v Hv. apply memZ_In. auto.
+  - intros He Hl v Hv. rewrite He in H2. apply Nat.leb_le in Hl. rewrite Hl in H2. cbn in H2.
+    rewrite forallb_forall in H2. apply memZ_In. auto.
+Qed.
+
+Lemma col_ok_sound a sp col : col_ok a sp col = true -> col_prop a sp col.
+Proof.
+  unfold col_ok, col_prop. destruct sp as [c|vs|vs ps]; try apply listed_sound.
+  destruct (random_values a); [|apply listed_sound].
+  intros H. apply andb_true_iff in H as [H H3]. apply andb_true_iff in H as [H1 H2].
+  rewrite forallb_forall in H1. split; [|split].
+  - intros v Hv. apply between_spec. auto.
+  - now apply Nat.leb_le.
+  - intros He Hc. rewrite He in H3. apply Nat.leb_le in Hc. rewrite Hc in H3. cbn in H3.
+    now apply Nat.eqb_eq.
+Qed.
+
+Lemma shape_ok_sound a X : shape_ok a X = true ->
+  length X = n_samples a /\
+  forall row, In row X -> length row = n_features a /\ forall v, In v row -> in_int32 v = true.
+Proof.
+  unfold shape_ok. intros H. apply andb_true_iff in H as [H1 H2]. split. now apply Nat.eqb_eq.
+  rewrite forallb_forall in H2. intros row Hr. specialize (H2 _ Hr).
+  apply andb_true_iff in H2 as [H2 H3]. split. now apply Nat.eqb_eq. now rewrite forallb_forall in H3.
+Qed.
+
+Lemma valid_dataset_sound a X : valid_dataset a X = true ->
+  length X = n_samples a /\
+  (forall row, In row X -> length row = n_features a /\ forall v, In v row -> in_int32 v = true) /\
+  (sorted_structure a = true -> forall j, (j < n_features a)%nat -> col_prop a (declared a j) (column X j)).
+Proof.
+  unfold valid_dataset. intros H. apply andb_true_iff in H as [H1 H2].
+  apply shape_ok_sound in H1 as [S1 S2]. split; [exact S1|]. split; [exact S2|].
+  intros Hs j Hj. rewrite Hs in H2. rewrite forallb_forall in H2. apply col_ok_sound. apply H2.
+  apply in_seq. lia.
+Qed.
+
+Lemma listed_complete a vs col :
+  (forall v, In v col -> In v vs) ->
+  (ensure_rep a = true -> Nat.leb (length vs) (n_samples a) = true -> forall v, In v vs -> In v col) ->
+  forallb (fun v => memZ v vs) col &&
+  (if ensure_rep a && (length vs <=? n_samples a)%nat then forallb (fun v => memZ v col) vs else true) = true.
+Proof.
+  intros H1 H2. apply andb_true_iff. split.
+  - apply forallb_forall. intros v Hv. apply memZ_In. auto.
+  - destruct (ensure_rep a); cbn; [|reflexivity].
+    destruct (length vs <=? n_samples a)%nat eqn:E; [|reflexivity].
+    apply forallb_forall. intros v Hv. apply memZ_In. auto.
+Qed.
+
+Lemma col_ok_of_feature a sp vec col : feature_ok Nat.leb a sp (vec, col) -> col_ok a sp col = true.
+Proof.
+  intros (D & Lc & Iv & _ & R). unfold col_ok. unfold dom_ok in D.
+  destruct sp as [c|vs|vs ps]; try (subst vec; now apply listed_complete).
+  destruct (random_values a); [|subst vec; now apply listed_complete].
+  destruct D as (Lv & Nd & Rg).
+  assert (Hincl : incl (distinct col) vec).
+  { intros v Hv. apply Iv. unfold distinct in Hv. now apply nodup_In in Hv. }
+  assert (Hle : (length (distinct col) <= c)%nat).
+  { rewrite <- Lv. apply NoDup_incl_length; auto. apply NoDup_nodup. }
+  apply andb_true_iff. split. apply andb_true_iff. split.
+  - apply forallb_forall. intros v Hv. apply between_spec. auto.
+  - now apply Nat.leb_le.
+  - destruct (ensure_rep a); cbn; [|reflexivity].
+    destruct (c <=? n_samples a)%nat eqn:E; [|reflexivity].
+    apply Nat.eqb_eq. apply Nat.le_antisymm; [exact Hle|].
+    rewrite <- Lv. apply NoDup_incl_length; auto.
+    intros v Hv. unfold distinct. apply nodup_In. apply R; auto. now rewrite Lv.
+Qed.
+
+Lemma model_passes_validator a s X : sorted_structure a = true ->
+  generate a s = Ok X -> valid_dataset a X = true.
+Proof.
+  intros Hs H. unfold generate in H.
+  destruct (generate_full a s) as [[X' doms]|] eqn:G; [|discriminate]. inversion H; subst X'. clear H.
+  unfold generate_full in G. unfold valid_dataset. rewrite Hs. apply andb_true_iff. split.
+  - destruct (run_shape Nat.leb leb_le' a s X doms G) as [S1 S2].
+    unfold shape_ok. apply andb_true_iff. split. now apply Nat.eqb_eq.
+    apply forallb_forall. intros row Hr. destruct (S2 _ Hr) as [L I]. apply andb_true_iff. split.
+    now apply Nat.eqb_eq. now apply forallb_forall.
+  - apply forallb_forall. intros j Hj. apply in_seq in Hj.
+    destruct (run_feature Nat.leb leb_le' a s X doms G j ltac:(lia)) as (specs & L & FO & _).
+    rewrite (layout_sorted a Hs) in L. inversion L; subst specs.
+    rewrite nth_map_seq in FO by lia. eapply col_ok_of_feature; eauto.
+Qed.
+
+(* ---------------------------------------------------------------- determinism *)
+
+Lemma generate_seeded a s X : generate a s = Ok X -> exists s1, s = RSeed (seed a) :: s1.
+Proof.
+  unfold generate. destruct (generate_full a s) as [[X' doms]|] eqn:G; [|discriminate]. intros _.
+  destruct (generate_full_gen_inv _ _ _ _ _ G) as (specs & dcs & s1 & E & _). eauto.
+Qed.
+
+(* ---------------------------------------------------------------- ensure_rep before the repair *)
+
+Definition old_witness_args : args := mkArgs 1 2 2 None true false 0 1000 42.
+Definition old_witness_stream : list answer := [RSeed 42; RRandint 0; RChoice [0; 0]; RShuffle [0; 0]].
+
+Lemma ensure_rep_prefix_refuted :
+  exists a s X doms,
+    generate_full_old a s = Ok (X, doms) /\ ensure_rep a = true /\
+    exists j v, (j < n_features a)%nat /\ (length (nth j doms []) <= n_samples a)%nat /\
+                In v (nth j doms []) /\ forall i, (i < n_samples a)%nat -> cell X i j <> v.
+Proof.
+  exists old_witness_args, old_witness_stream, [[0]; [0]], [[0; 1]].
+  split. reflexivity. split. reflexivity.
+  exists O, 1. split. cbn; lia. split. cbn; lia. split. cbn; auto.
+  intros i Hi. cbn in Hi. destruct i as [|[|i]]; cbn; try discriminate. lia.
+Qed.
+
+(* the repaired comparison rejects that stream: with size = cardinality nothing may be drawn *)
+Lemma old_witness_rejected_now : generate old_witness_args old_witness_stream = Err 7.
+Proof. reflexivity. Qed.
+
+(* ---------------------------------------------------------------- naive generator *)
+
+Lemma zip_with_length {A B C} (f : A -> B -> C) l1 : forall l2,
+  length l1 = length l2 -> length (zip_with f l1 l2) = length l1.
+Proof.
+  induction l1 as [|x r IH]; destruct l2; cbn; intros H; try discriminate; auto.
+Qed.
+
+Lemma zip_with_nth {A B C} (f : A -> B -> C) d1 d2 d l1 : forall l2 i,
+  length l1 = length l2 -> (i < length l1)%nat ->
+  nth i (zip_with f l1 l2) d = f (nth i l1 d1) (nth i l2 d2).
+Proof.
+  induction l1 as [|x r IH]; destruct l2; cbn; intros i H Hi; try discriminate; try lia.
+  destruct i. reflexivity. apply IH; lia.
+Qed.
+
+Lemma set_nth_length v l : forall k, length (set_nth k v l) = length l.
+Proof. induction l as [|x r IH]; destruct k; cbn; auto. Qed.
+
+Lemma set_nth_same v l : forall k, (k < length l)%nat -> nth k (set_nth k v l) 0 = v.
+Proof.
+  induction l as [|x r IH]; destruct k; cbn; intros H; try lia; try reflexivity. apply IH. lia.
+Qed.
+
+Lemma set_nth_other v l : forall k j, j <> k -> nth j (set_nth k v l) 0 = nth j l 0.
+Proof.
+  induction l as [|x r IH]; destruct k; destruct j; cbn; intros H; try reflexivity; try congruence.
+  apply IH. congruence.
+Qed.
+
+(* the two masked assignments amount to one threshold test *)
+Lemma label_formula v :
+  (if 39 <? (if v <? 40 then 0 else v) then 1 else (if v <? 40 then 0 else v)) = (if 40 <=? v then 1 else 0).
+Proof.
+  destruct (Z.ltb_spec v 40); destruct (Z.leb_spec 40 v); try lia.
+  - reflexivity.
+  - destruct (Z.ltb_spec 39 v); [reflexivity | lia].
+Qed.
+
+Lemma naive_spec nf size s sample target :
+  naive nf size s = Ok (sample, target) ->
+  exists m, s = [RRandintMat m] /\ (needle < nf)%nat /\ length m = size /\
+    target = map (fun r => if 40 <=? nth needle r 0 then 1 else 0) m /\
+    length sample = size /\
+    forall i, (i < size)%nat ->
+      length (nth i sample []) = nf /\
+      nth needle (nth i sample []) 0 = nth i target 0 /\
+      forall j, j <> needle -> nth j (nth i sample []) 0 = nth j (nth i m []) 0.
+Proof.
+  unfold naive. intros H.
+  destruct s as [|[] [|]]; try discriminate.
+  match type of H with (if ?c then _ else _) = _ => destruct c eqn:E1; [|discriminate] end.
+  destruct (Nat.ltb_spec needle nf) as [Hnf|]; [|discriminate].
+  assert (ET : map (fun v => if 39 <? v then 1 else v)
+                 (map (fun v => if v <? 40 then 0 else v) (map (fun r => nth needle r 0) m))
+               = map (fun r => if 40 <=? nth needle r 0 then 1 else 0) m).
+  { rewrite !map_map. apply map_ext. intros r. apply label_formula. }
+  rewrite ET in H.
+  set (t := map (fun r => if 40 <=? nth needle r 0 then 1 else 0) m) in *.
+  remember (fun (r : list Z) (t : Z) => set_nth needle t r) as F eqn:EF.
+  injection H as Hs Ht. subst sample target.
+  apply andb_true_iff in E1 as [L1 R1]. apply Nat.eqb_eq in L1. rewrite forallb_forall in R1.
+  exists m. split; [reflexivity|]. split; [exact Hnf|]. split; [exact L1|]. split; [reflexivity|].
+  assert (Lt : length m = length t) by (unfold t; now rewrite map_length).
+  split. { rewrite zip_with_length; auto. }
+  intros i Hi. rewrite <- L1 in Hi.
+  rewrite (zip_with_nth F [] 0 [] m t i Lt Hi). subst F. cbv beta.
+  assert (Hr : length (nth i m []) = nf).
+  { specialize (R1 (nth i m []) (nth_In _ _ Hi)). apply andb_true_iff in R1 as [R1 _]. now apply Nat.eqb_eq. }
+  split. { now rewrite set_nth_length. }
+  split. { apply set_nth_same. lia. }
+  intros j Hj. now apply set_nth_other.
+Qed.
+
+Lemma naive_small nf size s : (nf <= needle)%nat -> exists e, naive nf size s = Err e.
+Proof.
+  intros Hn. unfold naive. destruct s as [|[] [|]]; eauto.
+  match goal with |- context [if ?c then _ else _] => destruct c end; eauto.
+  destruct (Nat.ltb_spec needle nf); [lia|eauto].
+Qed.
+
+Lemma naive_needle_only nf size nf' size' m m' sa t sa' t' :
+  naive nf size [RRandintMat m] = Ok (sa, t) -> naive nf' size' [RRandintMat m'] = Ok (sa', t') ->
+  map (fun r => nth needle r 0) m = map (fun r => nth needle r 0) m' -> t = t'.
+Proof.
+  intros H H' E.
+  destruct (naive_spec _ _ _ _ _ H) as (m0 & E0 & _ & _ & T & _). inversion E0; subst m0.
+  destruct (naive_spec _ _ _ _ _ H') as (m1 & E1 & _ & _ & T' & _). inversion E1; subst m1.
+  subst t t'.
+  change (fun r => if 40 <=? nth needle r 0 then 1 else 0)
+    with (fun r : list Z => (fun v => if 40 <=? v then 1 else 0) ((fun r => nth needle r 0) r)).
+  rewrite <- !(map_map (fun r => nth needle r 0) (fun v => if 40 <=? v then 1 else 0)). now rewrite E.
+Qed.
+
+Lemma csv_rows_spec sample target i : length sample = length target -> (i < length sample)%nat ->
+  length (csv_rows sample target) = length sample /\
+  nth i (csv_rows sample target) [] = nth i sample [] ++ [nth i target 0].
+Proof.
+  intros L Hi. unfold csv_rows. split. now apply zip_with_length.
+  now rewrite (zip_with_nth (fun (r : list Z) (t : Z) => r ++ [t]) [] 0 [] sample target i L Hi).
+Qed.
+
+(* ---------------------------------------------------------------- non-vacuity *)
+
+(* a recorded run of the real code: generate_data(5, 6, cardinality=3,
+   structure=[(1, 4), ([2, 3], [[7,8,9],[1,2,3]]), (np.array([4]), [5, 6])],
+   ensure_rep=True, random_values=True, low=10, high=20, seed=3) *)
+Definition ex_args : args :=
+  mkArgs 5 6 3 (Some [SOne 1 (ACard 4); SMany [2; 3]%nat (AValsP [7; 8; 9] [1; 2; 3]); SMany [4%nat] (AVals [5; 6])])
+         true true 10 20 3.
+Definition ex_stream : list answer :=
+  [RSeed 3;
+   RChoice [15; 14; 11]; RRandint 2; RChoice [11; 11; 11]; RShuffle [15; 14; 11; 11; 11; 11];
+   RChoice [20; 10; 15; 18]; RRandint 2; RChoice [15; 15]; RShuffle [15; 20; 15; 18; 15; 10];
+   RChoice [9; 8; 8]; RShuffle [8; 7; 8; 9; 8; 9];
+   RChoice [9; 9; 8]; RShuffle [8; 8; 9; 7; 9; 9];
+   RRandint 0; RChoice [5; 5; 5; 5]; RShuffle [5; 5; 5; 5; 6; 5]].
+Definition ex_X : list (list Z) :=
+  [[15; 15; 8; 8; 5]; [14; 20; 7; 8; 5]; [11; 15; 8; 9; 5]; [11; 18; 9; 7; 5]; [11; 15; 8; 9; 6]; [11; 10; 9; 9; 5]].
+
+Example ex_generate : generate ex_args ex_stream = Ok ex_X.
+Proof. vm_compute. reflexivity. Qed.
+Example ex_sorted : sorted_structure ex_args = true.
+Proof. reflexivity. Qed.
+Example ex_valid : valid_dataset ex_args ex_X = true.
+Proof. vm_compute. reflexivity. Qed.
+Example ex_doms : exists X, generate_full ex_args ex_stream =
+  Ok (X, [[15; 14; 11]; [20; 10; 15; 18]; [7; 8; 9]; [7; 8; 9]; [5; 6]]).
+Proof. eexists. vm_compute. reflexivity. Qed.
+(* a stream violating the assumed library behaviour is rejected (a shuffle that loses a value) *)
+Example ex_bad_shuffle :
+  generate (mkArgs 1 3 2 None false false 0 1000 7)
+           [RSeed 7; RRandint 1; RChoice [0; 1; 1]; RShuffle [1; 1; 1]] = Err 8.
+Proof. reflexivity. Qed.
+Example ex_naive :
+  let row v := repeat 10 30 ++ [v] ++ [99] in
+  naive 32 3 [RRandintMat [row 39; row 40; row 10]] =
+  Ok ([repeat 10 30 ++ [0; 99]; repeat 10 30 ++ [1; 99]; repeat 10 30 ++ [0; 99]], [0; 1; 0]).
+Proof. vm_compute. reflexivity. Qed.
